@@ -207,9 +207,11 @@ func execPure(c Case) (v ev.Verdict) {
 	return v
 }
 
-var patAtoms = []string{"a", "b", "/", ".", "*", "**", "?", "\\*", "\\?", "\\\\", "\\[", "\\]", "+", "(", ")", "|", "{", "}", "^", "$", " ", "é", "a", "b", "/", "*", "ab"}
-var badAtoms = []string{"\\a", "\\.", "\\"}
-var pathAtoms = []string{"a", "b", "/", ".", "*", "?", "\\", "[", "]", "+", "(", ")", "|", "$", "^", "{", "é", "a", "b", "/", "ab", " "}
+var patAtoms = []string{"a", "b", "/", ".", "*", "**", "?", "\\*", "\\?", "\\\\", "\\[", "\\]", "+", "(", ")", "|", "{", "}", "^", "$", " ", "é", "a", "b", "/", "*", "ab",
+	// text that is regexp syntax when it is not quoted: counted repetitions, flags, classes
+	"1", "2", ",", "{2}", "{1,2}", "{1,}", "a{2}", "(?i)", "(?s)", ".*", "a+", "(?:", "(?P<n>"}
+var badAtoms = []string{"\\a", "\\.", "\\", "\\pL", "\\d", "\\A", "\\z", "\\Q", "\\{", "\\1"}
+var pathAtoms = []string{"a", "b", "/", ".", "*", "?", "\\", "[", "]", "+", "(", ")", "|", "$", "^", "{", "é", "a", "b", "/", "ab", " ", "1", "2", ",", "}", "{2}", "{1,2}", "aa", "A", "B", "(?i)", "d", "pL", "Q"}
 
 func genPattern(t *rapid.T, allowBad bool) string {
 	n := rapid.IntRange(0, 6).Draw(t, "plen")
